@@ -81,7 +81,7 @@ class Show(ASTNode):
 
         if self.category == 'ENGINE' and self.name is not None:
             # SHOW ENGINE <name> STATUS | MUTEX: the mode follows the name
-            return f'SHOW ENGINE {self.name}{modes_str}'
+            return f'SHOW ENGINE {self.name}{modes_str}{from_str}{in_str}{like_str}{where_str}'
 
         # SHOW <word> <word> <name> (FUNCTION CODE f, ...): the name follows the category
         name_str = f' {self.name}' if self.name is not None else ''
